@@ -156,8 +156,9 @@ class Ctx:
         }
         if self.states < 1 or self.transitions < 1:
             raise Machinery('no TLC states explored')
-        with open(os.path.join(EVID_DIR, f'{self.prop}.json'), 'w') as f:
-            json.dump(ev, f, indent=1, default=str)
+        if not getattr(self, 'replaying', False):  # a --replay run covers one case: it must not replace the evidence of a full run
+            with open(os.path.join(EVID_DIR, f'{self.prop}.json'), 'w') as f:
+                json.dump(ev, f, indent=1, default=str)
         for fid, (f, n) in sorted(self.known_hits.items()):
             print(f'KNOWN-FINDING: property={self.prop} {fid}: {f["what"]} ({n} occurrence(s) this run)')
         seen = set()
